@@ -1,10 +1,16 @@
-(* executable wrapper over the GENERATED ll2cr parameters (Gen/GenC08.v): binary64, bit-exact (C08) *)
+(* executable wrapper over the GENERATED pieces of ll2cr (Gen/GenC08.v): the parameters from ewa.py:ll2cr and the element
+   loop body from _ll2cr.pyx:ll2cr_static; binary64, bit-exact (C08) *)
 From Coq Require Import ZArith List Bool PrimFloat.
 From PR Require Import Base.Num Base.F64 Base.ListX Model.Grid Model.EWA Model.C08_run Gen.GenC08.
 Import ListNotations.
 Open Scope Z_scope.
 
+(* the whole loop of ll2cr_static: the generated body for every point + the count *)
+Definition ll2cr_static_src {T} (OP : ops T) (p : cr_params) (fill : T) (pts : list (T * T)) : Z * list (T * T) :=
+  let res := map (fun xy => gen_ll2cr_body OP (fst xy) (snd xy) fill (cp_cw p) (cp_ch p) (cp_w p) (cp_h p) (cp_ox p) (cp_oy p)) pts in
+  (count_true (map snd res), map fst res).
+
 Definition chk_ll2cr_gen (c : ll_case) : bool :=
   let '(a, fill, pts, n) := c in
-  let '(cnt, out) := ll2cr_static F64 (params_of_tuple (gen_ll2cr_params F64 a)) fill (map fst pts) in
+  let '(cnt, out) := ll2cr_static_src F64 (params_of_tuple (gen_ll2cr_params F64 a)) fill (map fst pts) in
   (cnt =? n) && list_eqb (fun m e => same_bits (fst m) (fst e) && same_bits (snd m) (snd e)) out (map snd pts).
